@@ -12,6 +12,9 @@ import (
 	"verif/engine/smt"
 )
 
+// Tier is 0 (quick) or 1 (thorough); read by harnesses through verif.Tier().
+var Tier = 0
+
 const VerifPkg = "github.com/cossacklabs/acra/zz_verif/verif"
 const HookPkg = "github.com/cossacklabs/themis/gothemis/hook"
 
@@ -210,6 +213,7 @@ func init() {
 	V("StepBudget", func(fr *frame, args []value) value { needEx(fr).MaxSteps = int(asInt64(args[0])); return nil })
 	V("AllocLimit", func(fr *frame, args []value) value { needEx(fr).AllocLimit = asInt64(args[0]); return nil })
 	V("ForkLimit", func(fr *frame, args []value) value { needEx(fr).ForkLimit = int(asInt64(args[0])); return nil })
+	V("Tier", func(fr *frame, args []value) value { return Tier })
 	V("Log", func(fr *frame, args []value) value { return nil })
 
 	// crypto/rand
